@@ -404,6 +404,7 @@ func ModelFromObs(o *Obs, prev *Model) *Model {
 			m.Truncated[k] = v
 		}
 		m.Deleted = prev.Deleted
+		m.PrevLast = prev.PrevLast
 		for k, v := range prev.U64 {
 			m.U64[k] = v
 		}
